@@ -129,6 +129,14 @@ static void check_u64(cs::Ctx& ctx, JsonDocument& doc, uint64_t x) {
   check_all_targets(ctx, doc.as<JsonVariantConst>(), s);
 }
 static void check_f64(cs::Ctx& ctx, JsonDocument& doc, double x) {
+#if !ARDUINOJSON_USE_DOUBLE
+  // JsonFloat is float: the stored number is the float nearest to x (kept in range: the narrowing
+  // of an out-of-range double is not defined by the language)
+  if (std::isfinite(x)) {
+    if (fabs(x) > FLT_MAX) x = x < 0 ? -FLT_MAX : FLT_MAX;
+    x = (double)(float)x;
+  }
+#endif
   doc.set(x);
   Stored s{false, 0, x, "double"};
   check_all_targets(ctx, doc.as<JsonVariantConst>(), s);
